@@ -1,6 +1,8 @@
 import Usid.Model.Reduce
+import Usid.Proofs.Cartesian
+import Usid.Proofs.Translate
 /-! C12 — reducing named dimensions equals the axis reduction, in memory and on file.
-    (Structural theorems; the multiset / coordinate theorems are in progress.) -/
+    Structural theorems and the cell-level theorem `cell_exact`. -/
 namespace Usid.C12
 open Usid Usid.Reduce Usid.Slice
 
@@ -84,5 +86,128 @@ theorem reduced_anc_keeps_labels (a : AncK) (remove : List String) (d0 : Nat) (h
     exact ⟨d0, List.mem_range.mpr hd0, by simpa using hkeep⟩
   simp only [r, writeReducedAnc, this, Bool.false_eq_true, if_false]
   exact ⟨rfl, rfl, by simp [kept], by simp [kept]⟩
+
+/-! ### every cell holds exactly the source elements sharing its remaining coordinates -/
+
+theorem pickIdx_ranges : ∀ (sizes js : List Nat), InBounds sizes js →
+    pickIdx (sizes.map List.range) js = js
+  | [], [], _ => rfl
+  | s :: ss, j :: js, h => by
+    simp only [List.map_cons, pickIdx]
+    rw [pickIdx_ranges ss js h.2]
+    simp [List.getD_eq_getElem?_getD, List.getElem?_range h.1]
+  | [], _ :: _, h => by simp [InBounds] at h
+  | _ :: _, [], h => by simp [InBounds] at h
+
+theorem allMem_ranges : ∀ (sizes js : List Nat), InBounds sizes js → AllMem js (sizes.map List.range)
+  | [], [], _ => trivial
+  | s :: ss, j :: js, h => ⟨List.mem_range.mpr h.1, allMem_ranges ss js h.2⟩
+  | [], _ :: _, h => by simp [InBounds] at h
+  | _ :: _, [], h => by simp [InBounds] at h
+
+theorem inBounds_of_allMem_ranges : ∀ (sizes js : List Nat), AllMem js (sizes.map List.range) → InBounds sizes js
+  | [], [], _ => trivial
+  | s :: ss, j :: js, h => ⟨List.mem_range.mp h.1, inBounds_of_allMem_ranges ss js h.2⟩
+  | [], _ :: _, h => by simp [AllMem] at h
+  | _ :: _, [], h => by simp [AllMem] at h
+
+/-- the kept and the reduced axes of a view, in axis order -/
+def keepAxes (rank : Nat) (axes : List Nat) : List Nat := (List.range rank).filter (fun a => !axes.contains a)
+def redAxes (rank : Nat) (axes : List Nat) : List Nat := (List.range rank).filter (fun a => axes.contains a)
+
+/-- the full index assembled from an index of the kept axes and an index of the reduced axes -/
+def fullIdx (rank : Nat) (axes ki ri : List Nat) : List Nat :=
+  (List.range rank).map (fun a =>
+    if axes.contains a then ri.getD ((redAxes rank axes).idxOf a) 0 else ki.getD ((keepAxes rank axes).idxOf a) 0)
+
+/-- splitting an index into its kept and reduced parts and assembling it again gives the index back -/
+theorem fullIdx_split (rank : Nat) (axes idx : List Nat) (hl : idx.length = rank) :
+    fullIdx rank axes ((keepAxes rank axes).map (fun a => idx.getD a 0)) ((redAxes rank axes).map (fun a => idx.getD a 0)) = idx := by
+  apply List.ext_getElem
+  · simp [fullIdx, hl]
+  · intro a h1 h2
+    have ha : a < rank := by rw [← hl]; exact h2
+    simp only [fullIdx, List.getElem_map, List.getElem_range]
+    by_cases hc : axes.contains a = true
+    · have hm : a ∈ redAxes rank axes := List.mem_filter.mpr ⟨List.mem_range.mpr ha, hc⟩
+      have hlt := List.idxOf_lt_length_of_mem hm
+      simp only [hc, if_true]
+      rw [List.getD_eq_getElem?_getD, List.getElem?_map, List.getElem?_eq_getElem hlt]
+      simp [List.getElem_idxOf hlt, List.getD_eq_getElem?_getD, List.getElem?_eq_getElem h2]
+    · have hm : a ∈ keepAxes rank axes := List.mem_filter.mpr ⟨List.mem_range.mpr ha, by simpa using hc⟩
+      have hlt := List.idxOf_lt_length_of_mem hm
+      simp only [hc, Bool.false_eq_true, if_false]
+      rw [List.getD_eq_getElem?_getD, List.getElem?_map, List.getElem?_eq_getElem hlt]
+      simp [List.getElem_idxOf hlt, List.getD_eq_getElem?_getD, List.getElem?_eq_getElem h2]
+
+/-- ... and the kept part of an assembled index is the index of the kept axes it was assembled from -/
+theorem fullIdx_keep (rank : Nat) (axes ki ri : List Nat) (hk : ki.length = (keepAxes rank axes).length) :
+    (keepAxes rank axes).map (fun a => (fullIdx rank axes ki ri).getD a 0) = ki := by
+  have hnd : (keepAxes rank axes).Nodup := (List.filter_sublist).nodup List.nodup_range
+  apply List.ext_getElem
+  · simp [hk]
+  · intro p h1 h2
+    have hp : p < (keepAxes rank axes).length := by simpa using h1
+    have hmem := List.getElem_mem hp
+    have ha : (keepAxes rank axes)[p] < rank ∧ axes.contains (keepAxes rank axes)[p] = false := by
+      have := List.mem_filter.mp hmem
+      exact ⟨List.mem_range.mp this.1, by simpa using this.2⟩
+    simp only [List.getElem_map, fullIdx]
+    rw [List.getD_eq_getElem?_getD, List.getElem?_map, List.getElem?_range ha.1]
+    simp only [Option.map_some, Option.getD_some, ha.2, Bool.false_eq_true, if_false, hnd.idxOf_getElem p hp]
+    simp [List.getD_eq_getElem?_getD, List.getElem?_eq_getElem h2]
+
+/-- **Cells are exact.**  For every N-D view, every set of axes and every in-bounds index `idx` of the view:
+    the cell of the reduced array at the kept coordinates of `idx` is the list of view elements at
+    (kept coordinates of idx, r) for r running over ALL indices of the reduced axes; `view[idx]` itself is
+    in that cell; and every member of the cell is a view element whose kept coordinates are those of `idx`. -/
+theorem cell_exact (view : NDArr α) (axes idx : List Nat) (hb : InBounds view.shape idx) :
+    let rank := view.shape.length
+    let keep := keepAxes rank axes
+    let red := redAxes rank axes
+    let ki := keep.map (fun a => idx.getD a 0)
+    let redIdx := cartesian (red.map (fun a => List.range (view.shape.getD a 0)))
+    (reduceGroups view axes).flat[ravelC (reduceGroups view axes).shape ki]? =
+        some (redIdx.map (fun ri => view.get (fullIdx rank axes ki ri))) ∧
+    view.get idx ∈ redIdx.map (fun ri => view.get (fullIdx rank axes ki ri)) ∧
+    ∀ ri ∈ redIdx, (keep.map (fun a => (fullIdx rank axes ki ri).getD a 0) = ki) := by
+  intro rank keep red ki redIdx
+  have hlen : idx.length = rank := (Usid.Translate.inBounds_length _ _ hb).symm
+  have hbk : InBounds (keep.map (fun a => view.shape.getD a 0)) ki := by
+    have := Usid.Translate.inBounds_map view.shape idx hb keep (fun i hi => by
+      have := List.mem_filter.mp hi; exact List.mem_range.mp this.1)
+    -- getD default 1 vs 0: the axes are in range, so both read the same entry
+    have e : keep.map (fun a => view.shape.getD a 1) = keep.map (fun a => view.shape.getD a 0) := by
+      apply List.map_congr_left; intro a ha
+      have : a < view.shape.length := List.mem_range.mp (List.mem_filter.mp ha).1
+      simp [List.getD_eq_getElem?_getD, List.getElem?_eq_getElem this]
+    rw [e] at this; exact this
+  refine ⟨?_, ?_, ?_⟩
+  · show (List.map _ (cartesian (keep.map (fun a => List.range (view.shape.getD a 0)))))[ravelC (keep.map (fun a => view.shape.getD a 0)) ki]? = _
+    have e1 : (keep.map (fun a => List.range (view.shape.getD a 0))).map List.length = keep.map (fun a => view.shape.getD a 0) := by
+      simp [List.map_map, Function.comp_def]
+    have e2 : keep.map (fun a => List.range (view.shape.getD a 0)) = (keep.map (fun a => view.shape.getD a 0)).map List.range := by
+      simp [List.map_map, Function.comp_def]
+    have := cartesian_get (keep.map (fun a => List.range (view.shape.getD a 0))) ki (by rw [e1]; exact hbk)
+    rw [e1] at this
+    rw [List.getElem?_map, this, e2, pickIdx_ranges _ ki hbk]
+    rfl
+  · rw [List.mem_map]
+    refine ⟨red.map (fun a => idx.getD a 0), ?_, ?_⟩
+    · rw [mem_cartesian]
+      have hbr : InBounds (red.map (fun a => view.shape.getD a 0)) (red.map (fun a => idx.getD a 0)) := by
+        have := Usid.Translate.inBounds_map view.shape idx hb red (fun i hi => by
+          have := List.mem_filter.mp hi; exact List.mem_range.mp this.1)
+        have e : red.map (fun a => view.shape.getD a 1) = red.map (fun a => view.shape.getD a 0) := by
+          apply List.map_congr_left; intro a ha
+          have : a < view.shape.length := List.mem_range.mp (List.mem_filter.mp ha).1
+          simp [List.getD_eq_getElem?_getD, List.getElem?_eq_getElem this]
+        rw [e] at this; exact this
+      have e2 : red.map (fun a => List.range (view.shape.getD a 0)) = (red.map (fun a => view.shape.getD a 0)).map List.range := by
+        simp [List.map_map, Function.comp_def]
+      rw [e2]; exact allMem_ranges _ _ hbr
+    · rw [fullIdx_split rank axes idx hlen]
+  · intro ri _
+    exact fullIdx_keep rank axes ki ri (by simp [ki, keep])
 
 end Usid.C12
